@@ -60,10 +60,13 @@ ASSUMPTIONS = [
     "resampling are documented by the repository's tests to differ; image interpolation is nearest for paired checks",
     "max_category_ratio < 1 only with tensor masks (needs Tensor.unique); erasing min_count >= 1; two-crop tries=None only with the full IoU window",
     "SpecAugment band width is required to be strictly below the mask parameter (torchaudio's documented [0, mask_param))",
+    "tensor segmentation maps are driven as (H, W) and as (1, H, W), images with 1 / 3 / 4 channels: every paired transform (pad, resize, random resize, "
+    "random resize old, flip, crop incl. category retry, overlapped multi crop, wrapper pipelines) accepts both on the current tree - none refuses; "
+    "KDRandomSolarize (torchvision: 1 or 3 channels) is only placed in pipelines with 1 / 3-channel images",
     "placement of the semseg padding (centred) and the number of erased rectangles actually drawn are not judged",
     "denorm(norm(x)) / norm(denorm(x)) are compared with atol 1e-5 on values in [0,1], std in [0.05, 2]; the closed forms (x-mean)/std and y*std+mean with rtol = atol = 1e-5",
 ]
-MONITORS = ["crop_reproduced", "erase_checked", "specaugment_checked", "paired_checked", "pipeline_checked", "inverse_checked",
+MONITORS = ["paired_channel_dim_maps", "crop_reproduced", "erase_checked", "specaugment_checked", "paired_checked", "pipeline_checked", "inverse_checked",
             "pipeline_separate_access_with_image_only_draws", "multi_call_series"]
 
 CROP_KINDS = ["random_crop", "two_random_crop", "random_resized_crop", "simple_random_crop"]
@@ -359,7 +362,7 @@ def _gen_spec(rng, kind):
         io = rng.choice(["tensor", "tensor", "pil"])
         style = rng.choice(["coord", "coord", "blobs", "dominant"])
         h, w = _side(rng), _side(rng)
-        s.update(io=io, style=style, c=rng.choice([1, 3]))
+        s.update(io=io, style=style, c=rng.choice([1, 3, 3, 4]) if io == "tensor" else 3, mdim=rng.choice([2, 3]) if io == "tensor" else 2)
         def rel_size():
             out = []
             for n in (h, w):
@@ -394,6 +397,8 @@ def _gen_spec(rng, kind):
             n = rng.randint(1, 3)
             sizes = [list(_sides_aspect(rng, lo=rng.choice([1, 4, 4]))) for _ in range(n)]
             s.update(sizes=sizes, stages=_gen_pipeline(rng, [tuple(x) for x in sizes], io), wseed=rng.choice([None, rng.randrange(10 ** 6), rng.randrange(10 ** 6), 0]))
+            if s["c"] == 4 and any(st["k"] == "solarize" for st in s["stages"]):
+                s["c"] = 3   # torchvision's solarize accepts 1 or 3 channels
     elif kind in ("patchify", "patchify_image", "shuffle_chain"):
         h, w = _side(rng), _side(rng)
         ph, pw = rng.choice(G.divisors(h)), rng.choice(G.divisors(w))
@@ -796,13 +801,19 @@ def _spec_case(run, s):
 
 
 # ================================================================================================ paired image / mask
-def _check_pair(run, kind, img, mask, orig_mask, what, normed=False, solarized=False):
+def _check_pair(run, kind, img, mask, orig_mask, what, normed=False, solarized=False, lead=False):
     """mask == label of the pixel the image shows; -> decoded codes or None"""
     codes, ok = G.decode_image(img, normed, solarized)
     if not ok:
         run.violation(f"paired:{kind}:image-not-decodable", f"{what}: image values are no coordinate codes (not a nearest-neighbour geometry)")
         return None
     mo = G.mask_array(mask)
+    if lead:
+        # the map went in as (1, H, W): it has to come out with its channel dimension, transformed in the image plane
+        if mo.ndim != 3 or mo.shape[0] != 1:
+            run.violation(f"paired:{kind}:mask-channel-dim", f"{what}: a (1, H, W) map came back with shape {mo.shape}")
+            return None
+        mo = mo[0]
     if tuple(mo.shape) != tuple(codes.shape):
         run.violation(f"paired:{kind}:members-differ-in-size", f"{what}: image is {codes.shape}, mask is {mo.shape}")
         return None
@@ -860,7 +871,11 @@ def _rresize_range_ok(h, w, nh, nw, base, ratio):
 def _pair_case(run, s):
     kind = s["kind"]
     io, h, w = s["io"], s["h"], s["w"]
-    x, m, marr = G.make_pair(io, s["c"], h, w, s["style"], s["data_seed"])
+    lead = s.get("mdim", 2) == 3
+    x, m, marr = G.make_pair(io, s["c"], h, w, s["style"], s["data_seed"], s.get("mdim", 2))
+    run.cover("pair_layout", kind, io, s["c"], s.get("mdim", 2))
+    if lead:
+        run.count("paired_channel_dim_maps")
     grid = G.code_grid(h, w)
     V = run.violation
     if kind == "pad":
@@ -894,12 +909,12 @@ def _pair_case(run, s):
     if kind == "multi_crop":
         ch, cw = s["size"]
         n_exp = (1 + (h - ch) // (ch // 2)) * (1 + (w - cw) // (cw // 2))
-        if not torch.is_tensor(xo) or xo.ndim != 4 or mo.ndim != 3 or len(xo) != len(mo):
+        if not torch.is_tensor(xo) or xo.ndim != 4 or mo.ndim != (4 if lead else 3) or len(xo) != len(mo):
             V("paired:multi_crop:output-layout", f"{what}: {getattr(xo, 'shape', None)} / {getattr(mo, 'shape', None)}")
             return
         seen = set()
         for k in range(len(xo)):
-            codes = _check_pair(run, kind, xo[k], mo[k], marr, f"{what} [crop {k}]")
+            codes = _check_pair(run, kind, xo[k], mo[k], marr, f"{what} [crop {k}]", lead=lead)
             if codes is None:
                 return
             win = G.is_window(codes, h, w) if codes.shape == (ch, cw) else None
@@ -914,7 +929,7 @@ def _pair_case(run, s):
         if not covered.all() or len(seen) != len(xo) or len(xo) != n_exp:
             V("paired:multi_crop:coverage", f"{what}: {len(xo)} crops ({len(seen)} distinct windows, {n_exp} expected at half-crop stride), input covered: {bool(covered.all())}")
         return
-    codes = _check_pair(run, kind, xo, mo, marr, what)
+    codes = _check_pair(run, kind, xo, mo, marr, what, lead=lead)
     if codes is None:
         return
     oh, ow = codes.shape
@@ -968,7 +983,11 @@ def _pair_case(run, s):
 
 def _pipeline_case(run, s):
     io = s["io"]
-    items = [G.make_pair(io, s["c"], hh, ww, s["style"], s["data_seed"] + 31 * k) for k, (hh, ww) in enumerate(s["sizes"])]
+    lead = s.get("mdim", 2) == 3
+    items = [G.make_pair(io, s["c"], hh, ww, s["style"], s["data_seed"] + 31 * k, s.get("mdim", 2)) for k, (hh, ww) in enumerate(s["sizes"])]
+    run.cover("pair_layout", "pipeline", io, s["c"], s.get("mdim", 2))
+    if lead:
+        run.count("paired_channel_dim_maps")
     ds = G.PairDataset([it[0] for it in items], [it[1] for it in items])
     stages = s["stages"]
     normed = any(st["k"] == "norm" for st in stages)
@@ -994,7 +1013,7 @@ def _pipeline_case(run, s):
         ok, out = _real(run, lambda: wrapper.getitem_xsemseg(idx, ctx={}), what)
         if not ok:
             return
-        codes = _check_pair(run, "pipeline", out[0], out[1], marr, what + " [fused access]", normed=normed, solarized=solar)
+        codes = _check_pair(run, "pipeline", out[0], out[1], marr, what + " [fused access]", normed=normed, solarized=solar, lead=lead)
         if codes is None:
             return
         run.count("pipeline_checked")
@@ -1013,7 +1032,7 @@ def _pipeline_case(run, s):
             ok2, ms = _real(run, lambda: wrapper.getitem_semseg(idx, ctx={}), what)
             if not (ok1 and ok2):
                 return
-            sep = _check_pair(run, "pipeline-separate-access", xs, ms, marr, what + " [getitem_x / getitem_semseg]", normed=normed, solarized=solar)
+            sep = _check_pair(run, "pipeline-separate-access", xs, ms, marr, what + " [getitem_x / getitem_semseg]", normed=normed, solarized=solar, lead=lead)
             if sep is None:
                 return
             run.count("pipeline_separate_access_checked")
